@@ -108,6 +108,9 @@ type c01Must struct {
 	undecided map[string]bool
 	memo      map[ssa.Value]c01Set
 	inprog    map[ssa.Value]bool
+	mt        string                 // the media type assumed (for helpers called per kind)
+	isMT      func(v ssa.Value) bool // recognises loads of Descriptor.MediaType
+	depth     int
 }
 
 func newC01Must(fn *ssa.Function, k *cut) *c01Must {
@@ -170,6 +173,23 @@ func (m *c01Must) must(v ssa.Value) c01Set {
 	return s
 }
 
+// viaHelper: the value is result #0 of a module helper; what the helper returns
+// on every successful path under the same media-type assumption.
+func (m *c01Must) viaHelper(call *ssa.Call) (c01Set, bool) {
+	g := StaticCallee(call)
+	if g == nil || !inModule(g) || len(g.Blocks) == 0 || m.depth >= 3 || m.isMT == nil || g == m.fn {
+		return c01Set{}, false
+	}
+	set, n, und := c01CoverageDepth(g, c01StrTests(g, m.isMT), m.mt, m.isMT, m.depth+1)
+	for _, u := range und {
+		m.undecided[u] = true
+	}
+	if n == 0 {
+		return c01Set{}, false
+	}
+	return set, true
+}
+
 func (m *c01Must) must1(v ssa.Value) c01Set {
 	empty := c01Set{m: map[string]bool{}}
 	if s, ok := m.leaf(v); ok {
@@ -205,8 +225,17 @@ func (m *c01Must) must1(v ssa.Value) c01Set {
 			}
 			return s
 		}
+		if s, ok := m.viaHelper(u); ok {
+			return s
+		}
 		m.undecided["call of "+CalleeName(u)+" builds the returned slice"] = true
 		return empty
+	case *ssa.Extract:
+		if call, isCall := u.Tuple.(*ssa.Call); isCall && u.Index == 0 {
+			if s, ok := m.viaHelper(call); ok {
+				return s
+			}
+		}
 	case *ssa.Slice:
 		if a, ok := u.X.(*ssa.Alloc); ok {
 			s := empty
@@ -255,9 +284,14 @@ func (m *c01Must) must1(v ssa.Value) c01Set {
 
 // c01CoverageOf evaluates, for one function and one media-type case, which
 // link members every feasible successful return contains.
-func c01CoverageOf(fn *ssa.Function, tests []c01StrTest, mt string) (set c01Set, nReturns int, undecided []string) {
+func c01CoverageOf(fn *ssa.Function, tests []c01StrTest, mt string, isMT func(v ssa.Value) bool) (set c01Set, nReturns int, undecided []string) {
+	return c01CoverageDepth(fn, tests, mt, isMT, 0)
+}
+
+func c01CoverageDepth(fn *ssa.Function, tests []c01StrTest, mt string, isMT func(v ssa.Value) bool, depth int) (set c01Set, nReturns int, undecided []string) {
 	k := c01CaseCut(tests, mt)
 	m := newC01Must(fn, k)
+	m.mt, m.isMT, m.depth = mt, isMT, depth
 	acc := c01Set{top: true}
 	errIdx := ErrResultIndex(fn.Signature)
 	for _, r := range Returns(fn) {
@@ -295,7 +329,7 @@ func c01R1(c *Ctx) {
 	check := func(fn *ssa.Function, kind, member string) {
 		tests := c01StrTests(fn, isMT)
 		key := FnName(fn) + "|" + kind + "|" + member
-		set, n, und := c01CoverageOf(fn, tests, kinds.ByKind[kind])
+		set, n, und := c01CoverageOf(fn, tests, kinds.ByKind[kind], isMT)
 		switch {
 		case n == 0:
 			c.Violation(R, key, fn.Pos(), "no successful return is reachable for media type "+kinds.ByKind[kind]+": nodes of this kind are treated as leaves and their "+member+" link is never followed")
@@ -418,31 +452,35 @@ func c01R2(c *Ctx) {
 		c.Check(R, tn+"|successors-origin", gos[0].Pos(), ok,
 			ifelse(ok, "the dispatched slice is opts.FindSuccessors(ctx, proxy, desc) for the node being copied, passed through recognised filters only",
 				"the slice handed to syncutil.Go is not the FindSuccessors result for the node being copied"))
-		// the default FindSuccessors is content.Successors (installed only when nil)
-		if par := T.Parent(); par != nil {
-			fsField := c01FieldOf(c.P, "", "CopyGraphOptions", "FindSuccessors")
-			var stores []*ssa.Store
-			loads := map[ssa.Value]bool{}
-			AllInstrs(par, func(in ssa.Instruction) {
-				if s, ok := in.(*ssa.Store); ok {
-					if p, ok := c01AddrPath(s.Addr); ok && p.last() == fsField {
-						stores = append(stores, s)
-					}
-				}
-				if v, ok := in.(ssa.Value); ok && c01IsFieldValue(v, fsField) {
-					loads[v] = true
-				}
-			})
-			nilE, _, _ := NilTests(par, loads)
-			okDef := fsField != nil && len(stores) > 0
+	}
+	// the default FindSuccessors is content.Successors (installed only when nil), in whatever function starts the traversal
+	{
+		fsField := c01FieldOf(c.P, "", "CopyGraphOptions", "FindSuccessors")
+		var gs []*ssa.Function
+		for g := range c01GraphCopyFns(c.P) {
+			gs = append(gs, g)
+		}
+		sort.Slice(gs, func(i, j int) bool { return gs[i].String() < gs[j].String() })
+		found := false
+		for _, par := range gs {
+			stores := c04FieldStores(par, fsField)
+			if len(stores) == 0 {
+				continue
+			}
+			found = true
+			nilE, _, _ := NilTests(par, c04FieldValues(par, fsField))
+			okDef := fsField != nil
 			for _, s := range stores {
-				f, isFn := s.Val.(*ssa.Function)
-				if !isFn || f != c.P.Fn("content", "Successors") || len(nilE) == 0 || !MustPass(s, newCut().Edges(nilE...)) {
+				f, _ := c01FuncOfValue(s.Val)
+				if f == nil || f != c.P.Fn("content", "Successors") || len(nilE) == 0 || !MustPass(s, newCut().Edges(nilE...)) {
 					okDef = false
 				}
 			}
 			c.Check(R, FnName(par)+"|default-find-successors", par.Pos(), okDef,
 				ifelse(okDef, "a nil FindSuccessors defaults to content.Successors", "FindSuccessors is not defaulted to content.Successors under the nil test only"))
+		}
+		if !found {
+			c.Violation(R, "graph-copy|default-find-successors", token.NoPos, "no function starting the traversal defaults a nil FindSuccessors to content.Successors")
 		}
 	}
 	var fl []*ssa.Function
@@ -773,7 +811,7 @@ func c01RefDefault(fn *ssa.Function, v ssa.Value, srcRef, dstRef *ssa.Parameter)
 // c01RefParamOf: in callee g, the index of the string parameter that reaches
 // PushReference's reference argument (or -1).
 func c01RefParamOf(g *ssa.Function) int {
-	for _, call := range CallsTo(g, nPushRef) {
+	for _, call := range Calls(g, func(n string) bool { return n == nPushRef || c01TagInvokes[n] }) {
 		args := call.Common().Args
 		for i, p := range g.Params {
 			for _, r := range Roots(args[len(args)-1]) {
@@ -789,6 +827,10 @@ func c01RefParamOf(g *ssa.Function) int {
 // c01TagEffects: calls in f that tag: Tag(ctx, desc, ref) or a module function
 // forwarding ref to PushReference — with ref satisfying isRef.
 func c01TagEffects(f *ssa.Function, isRef func(v ssa.Value) bool) []ssa.Instruction {
+	return c01TagEffectsD(f, isRef, 0)
+}
+
+func c01TagEffectsD(f *ssa.Function, isRef func(v ssa.Value) bool, depth int) []ssa.Instruction {
 	var out []ssa.Instruction
 	for _, call := range Calls(f, func(string) bool { return true }) {
 		if _, isDefer := call.(*ssa.Defer); isDefer {
@@ -805,6 +847,21 @@ func c01TagEffects(f *ssa.Function, isRef func(v ssa.Value) bool) []ssa.Instruct
 			if g := StaticCallee(call); g != nil && inModule(g) {
 				if i := c01RefParamOf(g); i >= 0 && i < len(args) && isRef(args[i]) {
 					out = append(out, call.(ssa.Instruction))
+					continue
+				}
+				// a helper that itself tags (reading the carried reference) on every successful path
+				if depth < 3 && len(g.Blocks) > 0 {
+					if inner := c01TagEffectsD(g, isRef, depth+1); len(inner) > 0 {
+						all := true
+						for _, r := range Returns(g) {
+							if !c01IsErrorReturn(r, ErrResultIndex(g.Signature)) && !MustPass(r, newCut().Instr(inner...)) {
+								all = false
+							}
+						}
+						if all {
+							out = append(out, call.(ssa.Instruction))
+						}
+					}
 				}
 			}
 		}
@@ -841,12 +898,7 @@ func c01R4(c *Ctx) {
 		return out
 	}
 	var prepCall, graphCall ssa.CallInstruction
-	graphFns := map[*ssa.Function]bool{}
-	for _, t := range traversalClosures(c.P) {
-		if t.Parent() != nil {
-			graphFns[t.Parent()] = true
-		}
-	}
+	graphFns := c01GraphCopyFns(c.P)
 	for _, call := range Calls(Copy, func(string) bool { return true }) {
 		g := StaticCallee(call)
 		if g == nil || !inModule(g) {
@@ -955,45 +1007,18 @@ func c01R4(c *Ctx) {
 			rootParam = P.Params[i]
 		}
 	}
-	capturedFrom := func(v ssa.Value, prm *ssa.Parameter) bool {
-		for _, r := range Roots(v) {
-			ld, ok := r.(*ssa.UnOp)
-			if !ok || ld.Op != token.MUL {
-				return false
-			}
-			fv, ok := ld.X.(*ssa.FreeVar)
-			if !ok {
-				return false
-			}
-			bs := freeVarBindings(fv)
-			if len(bs) == 0 {
-				return false
-			}
-			for _, b := range bs {
-				a, ok := b.(*ssa.Alloc)
-				if !ok || len(closureWriters(a)) > 0 {
-					return false
-				}
-				ss := storesTo(a)
-				if len(ss) != 1 || ss[0].Val != ssa.Value(prm) {
-					return false
-				}
-			}
-		}
-		return true
-	}
+	capturedFrom := func(v ssa.Value, prm *ssa.Parameter) bool { return c01CarriedFrom(c.P, v, prm) }
 	for _, inst := range []struct {
 		role   string
 		stores []*ssa.Store
 	}{{"PreCopy", prs}, {"PostCopy", pos}, {"OnCopySkipped", sk}} {
 		for _, s := range inst.stores {
-			mc, ok := s.Val.(*ssa.MakeClosure)
+			W, _ := c01FuncOfValue(s.Val)
 			key := pn + "$" + inst.role + "|tags-root"
-			if !ok {
-				c.Undecided(R, key, s.Pos(), "the installed "+inst.role+" is not a closure literal")
+			if W == nil || len(W.Blocks) == 0 {
+				c.Undecided(R, key, s.Pos(), "the installed "+inst.role+" is not a closure, method value or function of the module")
 				continue
 			}
-			W := mc.Fn.(*ssa.Function)
 			eqT, _, _ := CallTests(W, "~/content.Equal", func(call *ssa.Call) bool {
 				a, b := call.Call.Args[0], call.Call.Args[1]
 				pa, pb := c01ParamOf(a) != nil, c01ParamOf(b) != nil
@@ -1050,14 +1075,8 @@ func c01R4(c *Ctx) {
 				existsTrue = append(existsTrue, te...)
 			}
 		}
-		cbs := CallsTo(T, "field:~.CopyGraphOptions.OnCopySkipped")
-		loads := map[ssa.Value]bool{}
-		AllInstrs(T, func(in ssa.Instruction) {
-			if v, ok := in.(ssa.Value); ok && c01IsFieldValue(v, skipped) {
-				loads[v] = true
-			}
-		})
-		nilE, _, _ := NilTests(T, loads)
+		cbs, _ := c01CallbackSites(T, skipped)
+		nilE := c04NilEdgesOfField(T, skipped)
 		if len(existsTrue) == 0 {
 			c.Undecided(R, tn+"|existing-node-notifies-OnCopySkipped", T.Pos(), "no test of dst.Exists(ctx, desc) recognised before the dispatch")
 			continue
